@@ -897,7 +897,7 @@ def _stream_prims(ctx, V):
     cases += [bytes([c]) + b"1" for c in range(256)] + [b"1" + bytes([c]) for c in range(256)]
     cases += [b"0o17", b"0O17", b"0o_17", b"0O_1_7", b"1_000", b"-0", b"+00012", b"\x0b12\x0c", b"12\r\n", b"0x1f", b"1e3", b"1.0",
               b"99999999999999999999999", b"-99999999999999999999999", b"0b1", b"00", b"07", b"08"]
-    for _ in range(ctx.budget(300)):
+    for _ in range(ctx.budget(800)):
         cases.append(bytes(rng.choice(b"0123456789 +-_o\t") for _ in range(rng.randint(1, 8))))
     lines = [f"c01.pyint 8 {hx(c)}" for c in cases] + [f"c01.pyint 10 {hx(c)}" for c in cases]
     outs = ctx.driver.batch(lines)
@@ -975,7 +975,7 @@ def _stream_tz(ctx):
     # --- format_timezone: model vs real on canonical and non-canonical states
     cases = [(o, n) for o in TZ_CANON + [360000, -360000, 359940, 2 ** 40 * 60, 61, -61, 59, 1, -1, 30]
              for n in (False, True)]
-    for _ in range(ctx.budget(300)):
+    for _ in range(ctx.budget(800)):
         tz, neg = gen_tz(rng, "canon")
         cases.append((tz, neg))
         cases.append((rng.randrange(-10 ** 6, 10 ** 6) * rng.choice([1, 60, 60, 3600]), rng.random() < 0.3))
@@ -995,7 +995,7 @@ def _stream_tz(ctx):
     texts += [s + b"%02d%02d" % (h, m) for s in (b"+", b"-") for h in (0, 1, 5, 9, 10, 12, 14, 23, 99) for m in (0, 1, 15, 30, 45, 59)]
     texts += [b"", b"+", b"-", b"0000", b"+0", b"-0", b"--700", b"--0", b"+-5", b"-+5", b"+ 100", b"+1_00", b"+0100 ", b"\t+0100",
               b"+10000", b"-99999999", b"+0o10", b"++100", b"+0575", b"+0060", b"-0060", b"+\xd9\xa0\xd9\xa1", b"+12a"]
-    texts += [mutate(rng, rng.choice(texts[:40] or [b"+0100"])) for _ in range(ctx.budget(200))]
+    texts += [mutate(rng, rng.choice(texts[:40] or [b"+0100"])) for _ in range(ctx.budget(600))]
     outs = ctx.driver.batch([f"c01.parsetz {hx(t)}" for t in texts])
     for t, m in zip(texts, outs):
         try:
@@ -1007,7 +1007,7 @@ def _stream_tz(ctx):
         _cmp(ctx, "tz.parse", {"text": hx(t)}, m, real)
     # --- time entries
     ents = []
-    for _ in range(ctx.budget(300)):
+    for _ in range(ctx.budget(800)):
         tz, neg = gen_tz(rng, "canon")
         ents.append((gen_ident(rng), gen_time(rng), tz, neg))
     outs = ctx.driver.batch([f"c01.fmtte {hx(p)} {t} {z} {int(n)}" for p, t, z, n in ents])
@@ -1027,7 +1027,7 @@ def _stream_tz(ctx):
     raws += [b"A <a@b>", b"A <a@b> ", b"A <a@b> 1", b"A <a@b> 1 ", b"A <a@b>  1 +0000", b"A <a@b> 1  +0000", b"> 1 +0000",
              b"A <a> b> 1 +0000", b"A <a@b> 1 2 +0000", b"A <a@b> +1 +0000", b"A <a@b> 1_0 +0000", b"no brackets 1 +0000",
              b"A <a@b> x +0000", b"A <a@b> 1 0000"]
-    raws += [mutate(rng, rng.choice(raws[:50])) for _ in range(ctx.budget(300))]
+    raws += [mutate(rng, rng.choice(raws[:50])) for _ in range(ctx.budget(800))]
     outs = ctx.driver.batch([f"c01.parsete {hx(r)}" for r in raws])
     for r, m in zip(raws, outs):
         try:
@@ -1090,7 +1090,7 @@ def _stream_msg(ctx):
     rng = ctx.rng
     cases = [([], None), ([], b""), ([], b"body"), ([(b"k", b"")], None), ([(b"k", b"\n")], b"\n"),
              ([(b"k", b"a\n b")], b" x"), ([(b"k", b"v"), (b"k", b"v2")], b"\n\n")]
-    for _ in range(ctx.budget(500)):
+    for _ in range(ctx.budget(1500)):
         cases.append((gen_headers(rng), rng.choice([None, b"", gen_message(rng), b" leading space\n", b"\nfoo"])))
     lines = ["c01.fmtmsg " + " ".join([ob(b)] + [x for k, v in hs for x in (hx(k), hx(v))]) for hs, b in cases]
     outs = ctx.driver.batch(lines)
@@ -1103,7 +1103,7 @@ def _stream_msg(ctx):
         _oracle_msg(ctx, hs, body)
     raws += [b"", b"\n", b"\n\n", b" \n", b" x", b"k", b"k\n", b"k v", b"k v\n", b"k v\n x", b"k v\n\n", b" c\nk v\n\nb", b"k v\n c\n",
              b"k v\n c\n\n", b"k  v\n", b"k \n", b"k v\nnospace\n\nb", b"\nk v\n", b"k v\r\n\r\nb"]
-    raws += [mutate(rng, rng.choice(raws[:200])) for _ in range(ctx.budget(500))]
+    raws += [mutate(rng, rng.choice(raws[:200])) for _ in range(ctx.budget(1500))]
     outs = ctx.driver.batch([f"c01.parsemsg {hx(r)}" for r in raws])
     for r, m in zip(raws, outs):
         real, _, _ = _real_parse_message(r)
@@ -1137,7 +1137,7 @@ def _oracle_tree(ctx, case, es, rr, stream=None):
 
 def _stream_tree(ctx, V):
     rng = ctx.rng
-    n = ctx.budget(250)
+    n = ctx.budget(600)
     cases = []
     # the prefix-collision family of the property, exhaustively as dir/file twins
     fam = [b"a", b"a.b", b"a/", b"a-", b"a0", b"a.", b"a-b", b"ab", b"a b", b"a\xff", b"a\x01", b"A"]
@@ -1194,7 +1194,7 @@ def _stream_tree(ctx, V):
              (20, b"100644 a\0" + b"\1" * 20 + b"100644 a\0" + b"\2" * 20),          # duplicate name: dict keeps the last
              (20, b"100644 b\0" + b"\1" * 20 + b"100644 a\0" + b"\2" * 20)]          # unsorted input
     base = list(raws)
-    for _ in range(ctx.budget(400)):
+    for _ in range(ctx.budget(1200)):
         sl, r = rng.choice(base)
         raws.append((sl, mutate(rng, r)))
     for variant in V.workers:
@@ -1239,11 +1239,6 @@ TOUCH = {"commit": ["tree", "parents", "author", "committer", "message", "commit
          "tag": ["name", "tagger", "tag_time", "tag_timezone", "message", "signature", "object"]}
 
 
-def _canon_classes(kind: str, f: dict, raw_in: bytes | None = None) -> str | None:
-    """Narrow failing-input classes for the known findings (None: unclassified)."""
-    return None
-
-
 def _stream_objects(ctx, kind: str):
     """fields -> bytes (model vs as_raw_string, vs git's grammar), bytes -> fields (model vs from_string),
     parse -> touch one field -> re-serialise, on canonical objects; model vs real on mutated bytes."""
@@ -1251,7 +1246,7 @@ def _stream_objects(ctx, kind: str):
     gen = gen_commit_fields if kind == "commit" else gen_tag_fields
     tokens = commit_tokens if kind == "commit" else tag_tokens
     ref = ref_commit if kind == "commit" else ref_tag
-    n = ctx.budget(400) * BOOST
+    n = ctx.budget(1500) * BOOST
     cases = [gen(rng, "canon", "sha256" if rng.random() < 0.2 else "sha1") for _ in range(n)]
     outs = ctx.driver.batch([f"c01.{kind}.ser {tokens(f)}" for f in cases])
     raws = []
@@ -1270,13 +1265,11 @@ def _stream_objects(ctx, kind: str):
         ctx.sample({"stream": f"{kind}.ser", "raw": raws[0][:160].decode("latin1")})
     # ---- canonical bytes written by the reference serialiser: parse, compare with model; touch one field
     canon = []
-    for _ in range(ctx.budget(300) * BOOST):
+    for _ in range(ctx.budget(1200) * BOOST):
         f = gen(rng, "canon", "sha256" if rng.random() < 0.2 else "sha1")
         if kind == "commit":
             f["mergetag"] = [m if m.endswith(b"\n") else m + b"\n" for m in f["mergetag"]]
         raw = ref(f)
-        if rng.random() < 0.08 and not f["message"] and not f.get("signature"):
-            pass
         if rng.random() < 0.08:
             # "missing message": git accepts an object that ends after its last header line (no blank line)
             f = dict(f)
@@ -1301,7 +1294,7 @@ def _stream_objects(ctx, kind: str):
         _touch_oracle(ctx, kind, raw, rng)
     # ---- mutated bytes: model vs real only (no property claim on malformed input here)
     base = [r for _, r in canon] + raws
-    muts = [mutate(rng, rng.choice(base)) for _ in range(ctx.budget(500) * BOOST)] if base else []
+    muts = [mutate(rng, rng.choice(base)) for _ in range(ctx.budget(1500) * BOOST)] if base else []
     muts += _handwritten(kind)
     outs = ctx.driver.batch([f"c01.{kind}.deser {hx(r)}" for r in muts])
     outs2 = ctx.driver.batch([f"c01.{kind}.reser {hx(r)}" for r in muts])
@@ -1402,15 +1395,6 @@ def _touch_oracle_inner(ctx, kind, raw: bytes, rng, stream=None, attrs=None):
 
 def _coarse(s: str) -> str:
     return "err" if s.startswith("err") else s
-
-
-class _Seq:
-    """One live object + the expectations of the two referees (model line, fresh object)."""
-
-    def __init__(self, kind):
-        self.kind = kind
-        self.steps = []          # (model step token builder, python action, label)
-        self.trace = []          # human-readable op list for replays
 
 
 def _id_or_none(obj):
@@ -1539,8 +1523,9 @@ def _apply_op(kind, obj, f, op, ref):
     raise AssertionError(op)
 
 
-def _run_sequence(ctx, kind, seq, stream="edits"):
-    """seq: {"init": fields, "ops": [...]}.  Ops: ["set", attr, value] | ["id"] | ["raw"] | ["setraw", fields]
+def _sequence_gen(ctx, kind, seq, stream="edits"):
+    """(coroutine: yields lists of driver lines, receives their outputs)
+    seq: {"init": fields, "ops": [...]}.  Ops: ["set", attr, value] | ["id"] | ["raw"] | ["setraw", fields]
     (blob: ["data", bytes] | ["chunked", [bytes]]; tree: ["add", n, m, h] | ["setitem", ...] | ["del", n]).
     Two live objects run the same ops: on the first only the generated id/raw reads happen and are compared
     with the model's machine; on the second the oracle looks after every step."""
@@ -1625,9 +1610,19 @@ def _run_sequence(ctx, kind, seq, stream="edits"):
             ser_states.append(f"c01.{kind}.reser {hx(st[1])}" if kind != "tree" else
                               f"c01.tree.parse {'rs' if rs_sort else 'py'}dict 20 {hx(st[1])}")
     kinds_needed = sorted({(st[1], st[2]) for st in steps if st[0] == "S"})
-    outs = ctx.driver.batch(ser_states + [f"c01.setterkind {c} {a}" for c, a in kinds_needed])
+    outs = yield ser_states + [f"c01.setterkind {c} {a}" for c, a in kinds_needed]
     kindmap = dict(zip(kinds_needed, outs[len(ser_states):]))
-    it = iter(outs[: len(ser_states)])
+    outs = list(outs[: len(ser_states)])
+    # second hop for trees: serialise the dict the model parsed out of set_raw_string's bytes
+    hop = [i for i, st in enumerate([st for st in steps if st[0] in ("S", "W") and kind != "blob"])
+           if st[0] == "W" and kind == "tree" and outs[i].startswith("ok ")]
+    outs2 = yield [f"c01.tree.ser {'rs' if rs_sort else 'py'} {outs[i][3:]}" for i in hop]
+    for i, o in zip(hop, outs2):
+        outs[i] = o
+    if kind == "tree":
+        outs = [o if (o.startswith("ok ") or steps_kind != "W") else "perr" for o, steps_kind in
+                zip(outs, [st[0] for st in steps if st[0] in ("S", "W")])]
+    it = iter(outs)
     toks = []
     for st in steps:
         if st[0] == "S":
@@ -1645,13 +1640,11 @@ def _run_sequence(ctx, kind, seq, stream="edits"):
                 toks.append(f"W:{hx(st[1])}:{hx(st[1])}")
             else:
                 o = next(it)
-                if kind == "tree":
-                    o = ctx.driver.batch([f"c01.tree.ser {'rs' if rs_sort else 'py'} {o[3:]}"])[0] if o.startswith("ok ") else "perr"
                 toks.append(f"W:{hx(st[1])}:" + (o[3:] if o.startswith("ok ") else ("!" if o.startswith("perr") else "~")))
         else:
             toks.append(st[0])
     mline = f"c01.machine {'blob' if kind == 'blob' else 'other'} {TYPE_NUM[kind]} " + " ".join(toks)
-    mout = ctx.driver.batch([mline])[0]
+    mout = (yield [mline])[0]
     mvals = [] if mout == "." else mout.split(" ")
     obs = [st for st in steps if st[0] in ("I", "R")]
     case = {"kind": kind, "ops": [repr(o) for o in seq["ops"]][:14], "line": mline[:400]}
@@ -1669,6 +1662,34 @@ def _run_sequence(ctx, kind, seq, stream="edits"):
             if m_raw != st[1]:
                 ctx.disagree(stream, case, f"raw {mv[:120]}", f"raw {ob(st[1])[:120]}")
                 return
+
+
+def _run_sequence(ctx, kind, seq, stream="edits"):
+    _run_sequences(ctx, [(kind, seq)], stream)
+
+
+def _run_sequences(ctx, items, stream="edits"):
+    """Drive many `_sequence_gen` coroutines in lockstep so that the model is asked in three batches."""
+    gens = []
+    for kind, seq in items:
+        g = _sequence_gen(ctx, kind, seq, stream)
+        try:
+            req = next(g)
+            gens.append([g, req])
+        except StopIteration:
+            pass
+    while gens:
+        lines = [ln for _, req in gens for ln in req]
+        outs = ctx.driver.batch(lines) if lines else []
+        pos, nxt = 0, []
+        for g, req in gens:
+            part = outs[pos: pos + len(req)]
+            pos += len(req)
+            try:
+                nxt.append([g, g.send(part)])
+            except StopIteration:
+                pass
+        gens = nxt
 
 
 def _j(v):
@@ -1795,15 +1816,17 @@ def gen_sequence(rng, kind):
 
 def _stream_edits(ctx):
     rng = ctx.rng
-    n = ctx.budget(300) * BOOST
+    n = ctx.budget(2000) * BOOST
+    items = []
     for i in range(n):
         kind = ("commit", "tag", "tree", "blob")[i % 4]
         seq = gen_sequence(rng, kind)
-        nset = sum(1 for o in seq["ops"] if o[0] not in ("id", "raw"))
         ctx.count("edits", (kind, repr(seq["ops"])), True, f"{kind}:len{min(len(seq['ops']) // 4 * 4, 12)}")
-        _run_sequence(ctx, kind, seq)
+        items.append((kind, seq))
         if i < 2:
             ctx.sample({"stream": "edits", "kind": kind, "ops": [repr(o)[:60] for o in seq["ops"]][:8]})
+    for i in range(0, len(items), 500):
+        _run_sequences(ctx, items[i:i + 500])
 
 
 # ------------------------------------------------------------------------------------------------
@@ -1814,7 +1837,7 @@ def _stream_blob(ctx):
     from dulwich.object_format import SHA256
     rng = ctx.rng
     datas = [b"", b"\0", b"a", b"blob 1\0a", b"\n", b"x" * 1000, bytes(range(256))] + \
-        [rng.randbytes(rng.choice([1, 2, 17, 100, 4096, 70000])) for _ in range(ctx.budget(60))]
+        [rng.randbytes(rng.choice([1, 2, 17, 100, 4096, 70000])) for _ in range(ctx.budget(150))]
     outs = ctx.driver.batch([f"c01.hashinput 3 {hx(d)}" for d in datas])
     for d, m in zip(datas, outs):
         cuts = sorted(rng.randrange(len(d) + 1) for _ in range(rng.randint(0, 4)))
@@ -1898,7 +1921,7 @@ def _stream_git(ctx):
             out, err = _git(ctx, repo, ["hash-object", "-t", kind, "-w", "--stdin-paths"], ("\n".join(files) + "\n").encode())
             return (out.decode().split() if out is not None else None), err
 
-        n = ctx.budget(40, mult=5)
+        n = ctx.budget(70, mult=5)
         # ---- blobs
         blobs = [b"", b"a\n", rng.randbytes(300)] + [rng.randbytes(rng.randint(0, 50)) for _ in range(n // 4)]
         ids, err = hash_objects("blob", blobs)
